@@ -54,7 +54,8 @@
     edx:eax / dx:ax / ax is the unsigned product of the accumulator and the operand, the signed double-width product modulo 2^(2n),
     the two- and three-operand imul yields the product truncated to n bits (the same for signed and unsigned readings), and when the
     divisor is non-zero and the quotient fits (no #DE) div / idiv leave the quotient and remainder of the double-width dividend
-    (truncating division of the signed readings for idiv).  The flags of this group are left to the evaluation (known findings).
+    (truncating division of the signed readings for idiv); cf = of of the 16- and 32-bit mul are set exactly when the product does
+    not fit n bits.  The other flags of this group are left to the evaluation (known findings).
     Bit scans, flag images and frames (setalc bsf bsr xlat pushfd pushfw popfd popfw enter): every regenerated list is, node for node, the
     mirror SemSys.mirror_sys; bsf / bsr of a non-zero operand yield the index of its lowest / highest set bit (Expr.named_op's reading
     of the operators bsf / bsr) and zf tells whether the source is zero; setalc fills al with cf; xlat reads the byte at ebx + al
@@ -402,6 +403,12 @@ Theorem C04_mul : forall rho mu iota a, operand_ok a = true ->
   (size a = 8 -> (eval rho mu iota (EOp "umul08" [eax; a])) mod 2 ^ 16 = rho "eax" mod 2 ^ 8 * eval rho mu iota a).
 Proof. intros rho mu iota a Oa. split; [|split]; intros Sa; [apply mul32_value | apply mul16_value | apply mul8_value]; assumption. Qed.
 Print Assumptions C04_mul.
+Theorem C04_mul_flags : forall rho mu iota a, operand_ok a = true ->
+  (forall hi, eval rho mu iota (nonzero32 hi) = if eval rho mu iota hi =? 0 then 0 else 1) /\
+  (size a = 32 -> (eval rho mu iota (EOp "umul32_hi" [eax; a]) =? 0) = (rho "eax" mod 2 ^ 32 * eval rho mu iota a <? 2 ^ 32)) /\
+  (size a = 16 -> (eval rho mu iota (EOp "umul16_hi" [r_ax; a]) =? 0) = (rho "eax" mod 2 ^ 16 * eval rho mu iota a <? 2 ^ 16)).
+Proof. intros rho mu iota a Oa. split; [intros hi; apply mul_flags_value|]. split; intros Sa; [apply mul32_overflow | apply mul16_overflow]; assumption. Qed.
+Print Assumptions C04_mul_flags.
 Theorem C04_imul_wide : forall rho mu iota a, operand_ok a = true ->
   (size a = 32 -> eval rho mu iota (EOp "imul32_hi" [eax; a]) * 2 ^ 32 + eval rho mu iota (EOp "imul32_lo" [eax; a]) =
                   (sgn 32 (rho "eax" mod 2 ^ 32) * sgn 32 (eval rho mu iota a)) mod 2 ^ 64) /\
